@@ -28,7 +28,7 @@ CompsOf(r) == [i \in 1..Len(r.comps) |-> PFromTerms(r.comps[i])]
 FieldOfRec(r) == Pad(CompsOf(r))
 Fits(r) == Len(r.comps) <= 3 /\ \A i \in 1..Len(r.comps) : TermsFit(r.comps[i])
 
-Applicable(r) == /\ r.reg.k \in {"ell", "rect", "box", "tri", "tet", "shell", "ball"}
+Applicable(r) == /\ r.reg.k \in {"ell", "rect", "box", "tri", "tet", "shell", "ball", "hball"}
                  /\ r.fn \in Fns(RegOf(r))
                  /\ (r.fn = "flux2" => Planar(FieldOfRec(r), RegOf(r)))
 
